@@ -44,7 +44,7 @@ func init() {
 		shards: func(cfg vlib.Cfg) int { return cfg.N(16, 32) },
 		run:    runC11,
 		rule: "c11.tree: PRNG query trees over all 18 operators, and/or/not nesting (depth <= 4 quick / 6 thorough, arity 1-4), key prefixes, orderby/limit/offset, operands: int64 boundaries, floats, booleans, In lists of 2-40 unsorted operands with duplicates and prefixes of one another, strings and keys over an alphabet with space, tab, newline, quote, backslash, parentheses, comma, multi-byte runes, leading/trailing specials; only trees passing Check(); " +
-			"c11.recheck: query trees with one deliberately invalid leaf (operand of the wrong type, unparsable number/bool, bad regex, one-element In text, unknown operator): Check() must fail, and keep failing / IsChecked() stay false on the same object; c11.grammar: texts of the README grammar (grouping, no and/or mixing, both not forms, every operator alias, quoted and backslash-escaped tokens, free whitespace) with their intended AST; c11.text: token soups, mutations of valid texts (drop/duplicate/swap tokens, unbalanced quotes and parentheses, trailing backslash, truncation inside multi-byte runes), random bytes. " +
+			"c11.recheck: query trees with one deliberately invalid leaf (operand of the wrong type, unparsable number/bool, bad regex, one-element In text, unknown operator): Check() must fail, and keep failing / IsChecked() stay false on the same object; c11.grammar: texts of the README grammar (grouping, no and/or mixing, both not forms, every operator alias, quoted and backslash-escaped tokens, free whitespace, numeric operands in every decimal spelling strconv accepts - zero-padded, signed, .5, 5., exponents - and, expected to be rejected, in non-decimal ones) with their intended AST, also built through the API with the numeric operands as text; c11.text: token soups, mutations of valid texts (drop/duplicate/swap tokens, unbalanced quotes and parentheses, trailing backslash, truncation inside multi-byte runes), random bytes. " +
 			"Witnesses: per query ~48 records derived from its own operands (each as struct record and as JSON wrapper) plus fixed ones, and sample keys around the prefix. distinct = distinct (class,input); non-trivial = the query passed Check() and was compared (tree/grammar), or ParseQuery returned (text)",
 		finish: func(cfg vlib.Cfg, r *vlib.Report) {
 			r.Floor(r.Counter("q1_trees_compared") >= int64(cfg.N(8000, 100000)), "q1_trees_compared=%d", r.Counter("q1_trees_compared"))
@@ -97,6 +97,9 @@ type c11Node struct {
 	Via int
 	// Bad > 0: the leaf is built invalid on purpose (c11.recheck), see c11BadLeaf
 	Bad int
+	// Spell: the spelling the grammar renderer chose for a numeric operand (Q3); when set,
+	// build() hands exactly this text to query.Where
+	Spell string
 }
 
 type c11Query struct {
@@ -221,6 +224,8 @@ func (n *c11Node) build() query.Condition {
 	switch c11OpClass(n.Op) {
 	case 'i':
 		switch {
+		case n.Spell != "":
+			v = n.Spell
 		case n.Via == 1:
 			v = strconv.FormatInt(n.I, 10)
 		case n.Via == 2 && n.I >= math.MinInt8 && n.I <= math.MaxInt8:
@@ -236,6 +241,8 @@ func (n *c11Node) build() query.Condition {
 		}
 	case 'f':
 		switch {
+		case n.Spell != "":
+			v = n.Spell
 		case n.Via == 1:
 			v = strconv.FormatFloat(n.F, 'g', -1, 64)
 		case n.Via == 2 && float64(float32(n.F)) == n.F:
@@ -1036,6 +1043,114 @@ func c11Token(r *vlib.Rand, s string) string {
 
 type c11Render struct {
 	r *vlib.Rand
+	// malformed: a numeric operand was written in a spelling that the documented operand
+	// types (decimal int64: strconv.ParseInt(s, 10, 64); float64: strconv.ParseFloat(s, 64))
+	// do not accept: the text has to be rejected
+	malformed string
+}
+
+// c11SpellInt writes n in one of the spellings a decimal integer operand may have, or
+// (rarely) in a spelling that is not a decimal integer. The meaning of a spelling is what
+// strconv.ParseInt(s, 10, 64) says, never the harness's idea of it.
+func (x *c11Render) spellInt(n int64) string {
+	r := x.r
+	dec := strconv.FormatInt(n, 10)
+	neg := strings.HasPrefix(dec, "-")
+	digits := strings.TrimPrefix(dec, "-")
+	sign := ""
+	if neg {
+		sign = "-"
+	}
+	sp := dec
+	switch r.Intn(14) {
+	case 0:
+		sp = sign + "0" + digits // 010, -07
+	case 1:
+		sp = sign + strings.Repeat("0", r.Range(2, 4)) + digits // 0010
+	case 2:
+		if !neg {
+			sp = "+" + digits
+		}
+	case 3:
+		if !neg {
+			sp = "+0" + digits
+		}
+	case 4:
+		if r.Chance(1, 3) { // not a decimal integer
+			u := uint64(n)
+			if neg {
+				u = uint64(-n)
+			}
+			sp = vlib.Pick(r, sign+"0x"+strconv.FormatUint(u, 16), sign+"0o"+strconv.FormatUint(u, 8), sign+"0b"+strconv.FormatUint(u%1024, 2),
+				sign+"1_000", digits+".0", digits+"e0", "0x", sign+digits+"_", "1 000")
+		}
+	}
+	got, err := strconv.ParseInt(sp, 10, 64)
+	switch {
+	case err != nil:
+		x.malformed = sp
+	case got != n:
+		sp = dec // never trust a spelling the reference reads differently
+	}
+	return sp
+}
+
+func (x *c11Render) spellFloat(f float64) string {
+	r := x.r
+	g := strconv.FormatFloat(f, 'g', -1, 64)
+	sp := g
+	switch r.Intn(14) {
+	case 0:
+		sp = strconv.FormatFloat(f, 'e', -1, 64)
+	case 1:
+		sp = strconv.FormatFloat(f, 'f', -1, 64)
+	case 2:
+		sp = strings.ToUpper(strconv.FormatFloat(f, 'e', -1, 64)) // 1E+03
+	case 3: // .5 / -.5
+		sp = strconv.FormatFloat(f, 'f', -1, 64)
+		if strings.HasPrefix(sp, "0.") {
+			sp = sp[1:]
+		} else if strings.HasPrefix(sp, "-0.") {
+			sp = "-" + sp[2:]
+		}
+	case 4: // 5.
+		sp = strconv.FormatFloat(f, 'f', -1, 64)
+		if !strings.Contains(sp, ".") {
+			sp += "."
+		}
+	case 5: // 5.0 / 5.000
+		sp = strconv.FormatFloat(f, 'f', -1, 64)
+		if !strings.Contains(sp, ".") {
+			sp += "." + strings.Repeat("0", r.Range(1, 3))
+		}
+	case 6: // zero padded: 01.5, -007
+		sp = strconv.FormatFloat(f, 'f', -1, 64)
+		if strings.HasPrefix(sp, "-") {
+			sp = "-00" + sp[1:]
+		} else {
+			sp = "0" + sp
+		}
+	case 7:
+		if !strings.HasPrefix(g, "-") {
+			sp = "+" + g
+		}
+	case 8:
+		if f == 0 {
+			sp = vlib.Pick(r, "-0", "0.0", "0e0", "-0.0", "00")
+		}
+	case 9:
+		if r.Chance(1, 3) { // not a float
+			sp = vlib.Pick(r, g+"_0", "1_000.5", "1,5", g+"f", "0x", "1e", "e5", "--1", "1.2.3")
+		}
+	}
+	got, err := strconv.ParseFloat(sp, 64)
+	switch {
+	case err != nil:
+		x.malformed = sp
+	case got != f:
+		sp = g
+	}
+	return sp
 }
 
 func (x *c11Render) ws() string {
@@ -1059,19 +1174,11 @@ func (x *c11Render) leaf(n *c11Node, negate bool) string {
 	var v string
 	switch c11OpClass(n.Op) {
 	case 'i':
-		v = strconv.FormatInt(n.I, 10)
-		if r.Chance(1, 5) {
-			v = `"` + v + `"`
-		}
+		n.Spell = x.spellInt(n.I)
+		v = c11Token(r, n.Spell)
 	case 'f':
-		switch r.Intn(4) {
-		case 0:
-			v = strconv.FormatFloat(n.F, 'e', -1, 64)
-		case 1:
-			v = strconv.FormatFloat(n.F, 'f', -1, 64)
-		default:
-			v = strconv.FormatFloat(n.F, 'g', -1, 64)
-		}
+		n.Spell = x.spellFloat(n.F)
+		v = c11Token(r, n.Spell)
 	case 's', 'r':
 		v = c11Token(r, n.S)
 	case 'l':
@@ -1459,6 +1566,9 @@ func c11Shape(q c11Query) string {
 		switch n.Kind {
 		case "leaf":
 			note("key", n.Key)
+			if cl := c11OpClass(n.Op); (cl == 'i' && n.Spell != "" && n.Spell != strconv.FormatInt(n.I, 10)) || (cl == 'f' && n.Spell != "" && n.Spell != strconv.FormatFloat(n.F, 'g', -1, 64)) {
+				feats["num=spelled"] = true // an operand written other than Print() would write it
+			}
 			switch c11OpClass(n.Op) {
 			case 's':
 				note("val", n.S)
@@ -1740,6 +1850,20 @@ func c11GrammarCheck(q c11Query, typed map[string]byte, styleSeed uint64, b *vli
 	t := x.query(q)
 	f.text = t
 	pq, err := query.ParseQuery(t)
+	if x.malformed != "" {
+		// a numeric operand that is no decimal integer / no float: error expected, from the
+		// text parser and from the API handed the same text
+		if err == nil {
+			return c11Fail{kind: "grammar-accepts-malformed-number", what: fmt.Sprintf("text %q is accepted although its operand %q is not a number of the documented operand type (strconv reference: rejected)", t, x.malformed), text: t}
+		}
+		if _, aerr := q.build().Check(); aerr == nil {
+			return c11Fail{kind: "api-accepts-malformed-number", what: fmt.Sprintf("the query built through the API with the textual operand %q (as in text %q) passes Check() although the operand is not a number of the documented operand type", x.malformed, t), text: t}
+		}
+		if b != nil {
+			b.Count("q3_malformed_numbers_rejected", 1)
+		}
+		return f
+	}
 	if err != nil {
 		return c11Fail{kind: "grammar-rejected", what: fmt.Sprintf("documented-grammar text %q (intended: %s) is rejected: %v", t, q.String(), err), text: t}
 	}
@@ -1754,6 +1878,12 @@ func c11GrammarCheck(q c11Query, typed map[string]byte, styleSeed uint64, b *vli
 	}
 	if q.Where == nil {
 		return f
+	}
+	// the same conditions through the API, numeric operands handed over as the texts
+	// written above (Where(k, op, "0100")): same expectations
+	aq, aerr := q.build().Check()
+	if aerr != nil {
+		return c11Fail{kind: "api-text-operand-rejected", what: fmt.Sprintf("the query of text %q built through the API with its numeric operands as text is rejected by Check(): %v", t, aerr), text: t}
 	}
 	nt, nf := 0, 0
 	for _, w := range append(c11Witnesses(q, typed, c11NWitness), c11FixedWitnesses...) {
@@ -1773,6 +1903,10 @@ func c11GrammarCheck(q c11Query, typed map[string]byte, styleSeed uint64, b *vli
 			if got := c11Match(pq, rec); got != want {
 				kind := []string{"struct", "JSON"}[wi]
 				return c11Fail{kind: "grammar-meaning", what: fmt.Sprintf("text %q is accepted, but the %s record %s is matched=%d; the intended query %s matches=%d", t, kind, c11WitText(view), got, q.Where.String(), want), text: t}
+			}
+			if got := c11Match(aq, rec); got != want {
+				kind := []string{"struct", "JSON"}[wi]
+				return c11Fail{kind: "api-text-operand-meaning", what: fmt.Sprintf("built through the API with numeric operands as text (as written in %q), the %s record %s is matched=%d; the intended query %s matches=%d", t, kind, c11WitText(view), got, q.Where.String(), want), text: t}
 			}
 		}
 	}
